@@ -96,3 +96,13 @@ CLAIMS['C20'] = dict(
          'the pool returns at the first matching mount; option::matches returns the whole-path match and is reachable past the method filter only when it passed; every success of mount_point::match passed, for host, script name and path info each, '
          'the empty() or the regex_match edge, and the returned sub-path comes from the selected side; handler overload k is given match_[select_[0..k-1]] in order.',
     note='Trusted: PCRE semantics of PCRE_ANCHORED and \\z. Not decided: mapper/dispatcher agreement (URL generation inverse).')
+
+CLAIMS['C11'] = dict(
+    category='other',
+    technique='static analysis: gate-edge domination on the CFG, who-may-call, loop-guard and pairing rules',
+    text='Decides for src/json.cpp / cppcms/json.h: the parse target is written exactly once, only when state==st_done and past the trailing-input test (force_eof false or next()==eof), and that path returns true; '
+         'load() is true iff the parse succeeded; all pushes but the initial one are inside the loop guarded by stack.size() <= json_max_depth (constant from the tree), one push per iteration, no recursion; '
+         'a string token is accepted only past utf8::validate over the whole decoded string, raw control characters and unknown escapes are rejected; a duplicate key reaches st_error before the value slot is used; '
+         'value::write imbues the C locale before write_value and restores the stream locale on the normal and the exceptional path, write_value is reachable only through write (every save/operator<<), '
+         'the tokenizer brackets the input stream with the classic locale; all integer/float traits<T>::get return only past the round-trip / range comparison.',
+    note='Not decided: language equivalence with RFC 8259 (e.g. trailing commas), number round-trip precision, the escape tables of generic_append (abstract-interpretation rule, separate).')
